@@ -180,6 +180,53 @@ pub fn run(rep: &'static Report) {
     rep.extra("pairwise_comparisons", json!(pairs));
     rep.sample(json!({"kind":"pairwise","a":"S->R","b":"S2->R2","same":"ephemeral key, payload key, plaintext (65541 B), reads [65535,1,5]","expect":"identical magic, e, chunk headers, total length"}));
 
+    // "given the same ephemeral key" holds for every key a caller may give, a party's own static key included: with the
+    // pair of identity k supplied as the ephemeral pair, all 16 (sender, recipient) files have the same cleartext fields,
+    // the ephemeral field is that key, and REF reads every file back
+    {
+        let p = plaintext(seed ^ 0x8e, 70);
+        let mut cmp = 0u64;
+        for k in 0..4 {
+            let mut sks: Vec<((usize, usize), (Vec<u8>, Vec<(u64, u32, u32)>, usize))> = vec![];
+            for si in 0..4 {
+                for ri in 0..4 {
+                    rep.eval(1);
+                    let case = json!({"kind":"opts","combo":"ephemeral-is-a-static-key","e":k,"s":si,"r":ri});
+                    match key_enc_opts(&ids[si], &ids[ri], Some(&ids[k].sk), Some(&ids[k].pk), Some(&pays[0]), &p, &[]) {
+                        Err(m) => rep.violation("opts/encrypt-failed", case, m),
+                        Ok(file) => {
+                            rep.nontrivial(&r::sha256(&file));
+                            if file.len() < 36 || file[4..36] != ids[k].pk[..] {
+                                rep.violation("opts/ephemeral-not-used", case.clone(), format!("the supplied ephemeral key ({}'s static pair) is not the one written for {} -> {}", ids[k].name, ids[si].name, ids[ri].name));
+                            }
+                            if r::read_key_file(&ids[ri].sk, &file).map(|f| f.parsed.plaintext != p).unwrap_or(true) {
+                                rep.violation("opts/not-conforming", case.clone(), "REF cannot read the file back".into());
+                            }
+                            if let Some(sk) = skeleton(&file, 132) {
+                                sks.push(((si, ri), sk));
+                            }
+                        }
+                    }
+                }
+            }
+            for i in 0..sks.len() {
+                for j in 0..i {
+                    cmp += 1;
+                    if sks[i].1 != sks[j].1 {
+                        rep.violation(
+                            "lib/cleartext-depends-on-identities",
+                            json!({"kind":"opts","combo":"ephemeral-is-a-static-key","e":k,"a":[sks[i].0 .0, sks[i].0 .1],"b":[sks[j].0 .0, sks[j].0 .1]}),
+                            format!("cleartext fields differ between ({}->{}) and ({}->{}) although both were given the same ephemeral key ({}'s pair)", ids[sks[i].0 .0].name, ids[sks[i].0 .1].name, ids[sks[j].0 .0].name, ids[sks[j].0 .1].name, ids[k].name),
+                        );
+                        break;
+                    }
+                }
+            }
+        }
+        rep.eval(cmp);
+        rep.extra("ephemeral_is_static_key_comparisons", json!(cmp));
+    }
+
     // the four (ephemeral, ephemeral_public) option combinations
     let p = plaintext(seed ^ 0x83, 50);
     for (cn, eo, epo) in [("both", Some(&e), Some(&e_pub)), ("none", None, None), ("private-only", Some(&e), None), ("public-only", None, Some(&e_pub))] {
@@ -556,11 +603,14 @@ fn cli_level(rep: &Report) {
                     ljobs.push((mode, n, spelling));
                 }
             }
+            // spelling 3: the plaintext is /proc/version (a regular file whose reported size is 0)
+            ljobs.push((mode, 0, 3));
         }
         ljobs.par_iter().for_each(|&(mode, n, spelling)| {
             rep.eval(1);
             rep.nontrivial(format!("cli-input-spelling-{}-{}-{}", mode, n, spelling).as_bytes());
-            let p = plaintext(seed ^ 0x88, n);
+            let p = if spelling == 3 { std::fs::read("/proc/version").unwrap_or_default() } else { plaintext(seed ^ 0x88, n) };
+            let n = p.len();
             let attempt = || -> Result<(), String> {
                 let sc = Scratch::new();
                 sc.write("kr.txt", kr.as_bytes());
@@ -573,6 +623,7 @@ fn cli_level(rep: &Report) {
                         "p.lnk".into()
                     }
                     1 => format!("./a-directory-with-a-rather-long-name/../{}", real),
+                    3 => "/proc/version".into(),
                     _ => {
                         // a chain of two links
                         std::os::unix::fs::symlink(real, sc.path("l1")).map_err(|e| format!("MACHINERY: {}", e))?;
